@@ -61,6 +61,11 @@ func globalNormalise(c *Ctx) {
 		}
 		c.info("global normalisation retried with %s left as written", bad)
 	}
+	// new generic helpers: one non-generic copy per call (the language's own meaning of instantiation), which the
+	// inliner then treats like any other new helper (c03mono.go)
+	if c15GlobalShorts != nil {
+		c03Monomorphise(c, shorts)
+	}
 	// the program changed: rebuild the side tables that were derived from the old syntax trees
 	installAccessorResolver(c.P)
 }
